@@ -66,6 +66,7 @@ class FakePaStream(object):
     self.reads = 0
     self.is_input = bool(kwargs.get("input"))
     self.write_after_close = 0
+    self.write_while_stopped = 0
 
   def close(self):
     self.world.device_call("close")
@@ -103,6 +104,11 @@ class FakePaStream(object):
 def fake_write_stream(stream, data, nframes, exc_on_underflow=False):
   w = stream.world
   w.device_call("write")
+  if stream.stopped and not stream.closed:
+    # PortAudio refuses to write to a stopped stream (paStreamIsStopped)
+    stream.write_while_stopped += 1
+    w.record("write-refused", stream.sid)
+    raise IOError(-9983, "Stream is stopped")
   if stream.closed:
     stream.write_after_close += 1
   stream.writes.append((bytes(data), nframes))
